@@ -255,7 +255,7 @@ def _w_api(task):
     for merged in (False, True):
         if only_merged is not None and merged != only_merged:
             continue
-        for di, density in enumerate((None, Fr(1, 2), Fr(2), Fr(7))):
+        for di, density in enumerate((None, Fr(1, 2), Fr(2), Fr(7), Fr(0), Fr(-3))):
             if only_density is not None and di != only_density:
                 continue
             for cm in (None, (0, 0, 0), (1, 2, 3), (-2, 5, 1)):
@@ -264,8 +264,11 @@ def _w_api(task):
                     m.merge_vertices()
                 if density is not None:
                     m.density = float(density)
+                cm_arg = None
                 if cm is not None:
-                    m.center_mass = np.array(cm, dtype=float)
+                    # the caller keeps (and later edits) the array the override was assigned from
+                    cm_arg = np.array(cm, dtype=np.float64)
+                    m.center_mass = cm_arg
                 rho = Fr(1) if density is None else density
                 case = {"family": "api", "mesh": name, "merged": merged, "density": None if density is None else float(density), "center_mass": cm}
                 t.evaluations += 1
@@ -296,6 +299,14 @@ def _w_api(task):
                     if not np.allclose(Icm, Icm.T, atol=1e-9 * max(1.0, np.abs(Icm).max())):
                         t.violation(f"Trimesh.moment_inertia is not symmetric [{name}; {tag}]", case, {"got": Icm})
                 near(m.area, area, "area")
+                if cm_arg is not None:
+                    # the override is the value that was assigned, not whatever the caller's array holds later
+                    before = (np.array(m.center_mass, dtype=float), np.array(m.moment_inertia, dtype=float))
+                    cm_arg += 1.5
+                    after = (np.array(m.center_mass, dtype=float), np.array(m.moment_inertia, dtype=float))
+                    cm_arg -= 1.5
+                    if np.abs(after[0] - before[0]).max() > 0 or np.abs(after[1] - before[1]).max() > 1e-9 * max(1.0, np.abs(before[1]).max()):
+                        t.violation("the centre-of-mass override follows later edits of the array it was assigned from", case, {"before": before[0], "after": after[0]})
                 if density is None or density == 2:
                     # frames: inertia about point tt expressed in axes R
                     for R in rots[:: (1 if cm is None else 5)]:
@@ -379,7 +390,7 @@ def replay(case):
 def main(run):
     n = 3 if run.tier == "quick" else 4
     tasks = [(_w_selftest, None), (_w_degree, None)]
-    tasks += [(_w_api, (k, v, mg, di)) for k, v in api_meshes().items() for mg in (False, True) for di in range(4)]
+    tasks += [(_w_api, (k, v, mg, di)) for k, v in api_meshes().items() for mg in (False, True) for di in range(6)]
     tasks += [(_w_pillows, (4, i)) for i in range(64)]  # pillows always on the unisolvent 4-lattice
     tasks += [(_w_tets, (n, i, j)) for i in range(n**3) for j in range(n**3)]
     run.log(f"{len(tasks)} tasks, lattice {n}")
